@@ -21,6 +21,7 @@ package main
 
 import (
 	"context"
+	"crypto/sha256"
 	"encoding/json"
 	"fmt"
 	"math/rand"
@@ -76,6 +77,7 @@ type vkEv struct {
 }
 
 type vkStack struct {
+	nodeDropped int // node updates the real NodeReconcilerPredicate filtered out
 	fc      client.Client
 	k       *vsCtl
 	svcRec  *controllers.ServiceReconciler
@@ -368,7 +370,9 @@ func (st *vkStack) apply(e vkEv) {
 		o := vkNodeObject(e.Node)
 		wantSt := *o.Status.DeepCopy()
 		var old v1.Node
+		existed := false
 		if err := st.fc.Get(ctx, types.NamespacedName{Name: o.Name}, &old); err == nil {
+			existed = true
 			o.ResourceVersion = old.ResourceVersion
 			if err := st.fc.Update(ctx, o); err != nil {
 				panic(err)
@@ -383,8 +387,19 @@ func (st *vkStack) apply(e vkEv) {
 		if err := st.fc.Status().Update(ctx, o); err != nil {
 			panic(err)
 		}
-		// the Node watch of the node reconciler and the Node watch of the config reconciler
-		st.nodeRec.Reconcile(ctx, vkReq("", o.Name))
+		// the Node watch of the node reconciler goes through the reconciler's REAL event filter (an update the filter drops
+		// never reaches SetNode); the Node watch of the config reconciler
+		pass := true
+		if existed {
+			pass = controllers.NodeReconcilerPredicate().Update(event.UpdateEvent{ObjectOld: &old, ObjectNew: o})
+		} else {
+			pass = controllers.NodeReconcilerPredicate().Create(event.CreateEvent{Object: o})
+		}
+		if pass {
+			st.nodeRec.Reconcile(ctx, vkReq("", o.Name))
+		} else {
+			st.nodeDropped++
+		}
 		nreq := vkReq("", o.Name)
 		if _, err := st.cfgRec.Reconcile(ctx, nreq); err != nil {
 			st.pendingCfg = &nreq
@@ -650,10 +665,17 @@ func vkGenHistory(r *rand.Rand) (bool, []vkEv) {
 		case x < 84: // condition / exclude label flip
 			i := r.Intn(3)
 			c := *node[i]
-			if r.Intn(2) == 0 {
+			if r.Intn(3) != 0 {
+				// the condition appears with status True on a node that had none / had it False; disappears or turns False
 				c.Unavail = !c.Unavail
+				c.CondFalse = r.Intn(2) == 0
 			} else {
 				c.Excl = !c.Excl
+			}
+			if r.Intn(3) == 0 {
+				i, c = 0, *node[0] // this node's own condition, nothing else changing
+				c.Unavail = !c.Unavail
+				c.CondFalse = r.Intn(2) == 0
 			}
 			node[i] = &c
 			h = append(h, vkEv{Op: "node", Node: &c})
@@ -750,6 +772,18 @@ func vkRunHistory(out *vOut, id int, kind string, ignore bool, h []vkEv) {
 		case "del":
 			delete(truth.K, e.Name)
 		case "node":
+			if prev := truth.nodes[e.Node.Idx]; prev != nil && fmt.Sprint(vbLabelSet(prev.Labels)) == fmt.Sprint(vbLabelSet(e.Node.Labels)) && prev.Excl == e.Node.Excl {
+				switch { // generator side: which change of the NetworkUnavailable condition, the labels staying as they are
+				case !prev.Unavail && !prev.CondFalse && e.Node.Unavail:
+					out.Stat("stack_gen_condition_appears_true", 1)
+				case prev.Unavail && !e.Node.Unavail && !e.Node.CondFalse:
+					out.Stat("stack_gen_true_condition_disappears", 1)
+				case !prev.Unavail && prev.CondFalse && e.Node.Unavail:
+					out.Stat("stack_gen_condition_false_to_true", 1)
+				case prev.Unavail && !e.Node.Unavail && e.Node.CondFalse:
+					out.Stat("stack_gen_condition_true_to_false", 1)
+				}
+			}
 			truth.nodes[e.Node.Idx] = e.Node
 		case "cfg":
 			truth.cfg = e.Cfg
@@ -829,6 +863,67 @@ func vkRunHistory(out *vOut, id int, kind string, ignore bool, h []vkEv) {
 					fmt.Sprintf("peer %d is offered %s; by the statement (advertisement's node selector vs the node's current labels, node conditions, ignore flag, the endpoint slices of the Service's own namespace) it must be offered %s", pn, gb, wb), nil)
 			}
 		}
+		// (3b) layer 2 (C04 seen from this node): this node's announcer holds a Service's address iff this node is the one
+		// elected (smallest sha256(node#address)) among the nodes eligible by the statement on the CURRENT objects: speaker
+		// alive, selected by an L2Advertisement of the address's pool, not network-unavailable, not excluded (unless
+		// ignored), some endpoint of the Service's OWN slices can serve, and under Local policy one on that node
+		{
+			eff := vkEffective(truth.cfg, truth.nodes)
+			for n := 0; n < 4; n++ {
+				s := truth.K[n]
+				winner, elig := -1, []int{}
+				if s != nil && s.LB && !s.Invalid && len(s.IPs) > 0 {
+					if pi := vsPoolIdx(eff, s.IPs); pi >= 0 {
+						anyEp := false
+						for _, ep := range vbEntries(vbLayout{Eps: s.Eps}) {
+							if vbCanServe(ep) {
+								anyEp = true
+							}
+						}
+						for i := 0; i < 3 && anyEp; i++ {
+							nd := truth.nodes[i]
+							sel := false
+							for _, a := range eff.Pools[pi].L2 {
+								for _, x := range a.Nodes {
+									if x == i {
+										sel = true
+									}
+								}
+							}
+							here := !s.Local
+							for _, ep := range vbEntries(vbLayout{Eps: s.Eps}) {
+								if vbCanServe(ep) && ep.Node == i {
+									here = true
+								}
+							}
+							if nd != nil && sel && here && !nd.Unavail && !(nd.Excl && !ignore) {
+								elig = append(elig, i)
+							}
+						}
+						bh := ""
+						for _, i := range elig {
+							d := sha256.Sum256([]byte(vbNodeNames[i] + "#" + net.ParseIP(s.IPs[0]).String()))
+							if winner < 0 || string(d[:]) < bh {
+								winner, bh = i, string(d[:])
+							}
+						}
+					}
+				}
+				_, has := o.L2[n]
+				out.Stat("stack_l2_election_checks", 1)
+				if len(elig) > 1 {
+					out.Stat("stack_l2_contested_elections", 1)
+				}
+				if s != nil && s.Local && len(elig) > 0 {
+					out.Stat("stack_l2_elections_under_local_policy", 1)
+				}
+				if has != (winner == 0) {
+					fail("l2-announcers-differ-from-election",
+						fmt.Sprintf("%s (addresses %v, local policy %v): this node answers over layer 2: %v; by the statement the eligible nodes are %v and the elected node is %d (-1: none)",
+							vkSvcKeys[n], func() []string { if s == nil { return nil }; return s.IPs }(), s != nil && s.Local, has, elig, winner), nil)
+				}
+			}
+		}
 		// (4) the reported status
 		for s := 0; s < 4; s++ {
 			stored, n := vbStoredStatus(st.fc, s)
@@ -875,6 +970,7 @@ func vkRunHistory(out *vOut, id int, kind string, ignore bool, h []vkEv) {
 		}
 	}
 	out.Stat("stack_histories", 1)
+	out.Stat("stack_node_updates_dropped_by_the_real_filter", st.nodeDropped)
 	out.Case(id, kind, cCtor("mk_scase", cNi(id), cBool(ignore), cListN(vsLocalIfs), "HT", cSome(cListN([]int{0, 1, 2})), cList(steps)),
 		map[string]any{"ignore": ignore, "evs": done, "disabled": false, "speakers": []int{0, 1, 2}})
 }
@@ -913,6 +1009,39 @@ func TestVerifSpkStack(t *testing.T) {
 		{Op: "node", Node: nd(0, nil, true)}, {Op: "node", Node: nd(0, nil, false)},
 		{Op: "eps", Name: 0, Svc: svc("10.20.30.1", bad)}, {Op: "eps", Name: 1, Svc: svc("10.20.30.2", good)},
 		{Op: "resync"},
+	})
+	// same-named Services in two namespaces, Local traffic policy, their only serving endpoints on DIFFERENT nodes (every
+	// orientation): each Service is decided from the slices of its own namespace, on the single-Service and the reprocess-all path
+	onNode := func(i, addr int) [][]vbEP { return [][]vbEP{{{Ready: &T, Node: i, Addrs: []int{addr}}}} }
+	local := func(ip string, eps [][]vbEP) *vsSvc { return &vsSvc{LB: true, Local: true, IPs: []string{ip}, Eps: eps} }
+	id++
+	vkRunHistory(out, id, "corpus-same-name-two-namespaces-local-policy", false, []vkEv{
+		{Op: "node", Node: nd(0, nil, false)}, {Op: "node", Node: nd(1, nil, false)}, {Op: "node", Node: nd(2, nil, false)},
+		{Op: "cfg", Cfg: cfgAll}, {Op: "resync"},
+		{Op: "svc", Name: 0, Svc: local("10.20.30.1", onNode(1, 1))}, {Op: "svc", Name: 1, Svc: local("10.20.30.2", onNode(0, 2))},
+		{Op: "resync"},
+		{Op: "eps", Name: 0, Svc: local("10.20.30.1", onNode(0, 1))}, {Op: "eps", Name: 1, Svc: local("10.20.30.2", onNode(2, 2))},
+		{Op: "resync"},
+		{Op: "eps", Name: 0, Svc: local("10.20.30.1", onNode(2, 1))}, {Op: "eps", Name: 1, Svc: local("10.20.30.2", onNode(1, 2))},
+		{Op: "resync"},
+		{Op: "eps", Name: 1, Svc: local("10.20.30.2", onNode(0, 2))}, {Op: "eps", Name: 0, Svc: local("10.20.30.1", onNode(1, 1))},
+		{Op: "del", Name: 1}, {Op: "resync"},
+	})
+	// the NetworkUnavailable condition of this node APPEARS with status True on a node that had no such condition, disappears,
+	// then is present with status False, turns True, turns False - the labels never change; Services are announced meanwhile
+	ndc := func(i int, un, condFalse bool) *vsNode { return &vsNode{Idx: i, Unavail: un, CondFalse: condFalse} }
+	id++
+	vkRunHistory(out, id, "corpus-network-unavailable-condition-appears-and-disappears", false, []vkEv{
+		{Op: "node", Node: ndc(0, false, false)}, {Op: "node", Node: ndc(1, false, false)}, {Op: "node", Node: ndc(2, false, true)},
+		{Op: "cfg", Cfg: cfgAll}, {Op: "resync"},
+		{Op: "svc", Name: 0, Svc: svc("10.20.30.1", good)}, {Op: "svc", Name: 2, Svc: svc("10.20.30.2", good)},
+		{Op: "node", Node: ndc(0, true, false)},  // no condition -> True
+		{Op: "node", Node: ndc(0, false, false)}, // True -> no condition
+		{Op: "node", Node: ndc(0, false, true)},  // no condition -> False
+		{Op: "node", Node: ndc(0, true, false)},  // False -> True
+		{Op: "node", Node: ndc(0, false, true)},  // True -> False
+		{Op: "node", Node: ndc(1, true, false)}, {Op: "node", Node: ndc(2, true, false)}, // the other nodes: the election moves
+		{Op: "node", Node: ndc(1, false, false)}, {Op: "node", Node: ndc(2, false, true)},
 	})
 	// an advertisement selecting nodes by a label; this node is relabelled in and out
 	id++
